@@ -141,6 +141,20 @@ PLAN = {
                  "cnt (multiplicity in a list prefix) is defined by recursion on the prefix length; list.append extends it (A-LIB)",
                  "A-INF: float('inf') stored in a real-sorted field is a constant > 1e30"],
     ),
+    "C20": dict(
+        level="other",
+        bounded=[dict(module="rt.fnmon", fn="dataclient_monitor", label="DataClient against a stub server; RFC-1123 conversions around DST transitions")],
+        text="BOUNDED: run-time contracts on the real DataClient with requests.get replaced by a stub server - for every paging structure up to "
+             "the bound (including empty pages followed by non-empty ones) the generator yields every session exactly once in server order, issues "
+             "exactly one request per page following the next links, the first URL carries site / where / project / sort / max_results as given, "
+             "invalid sites raise before any request; parse_dates turns every RFC-1123 field and every time-series timestamp into an aware datetime "
+             "of the same instant in the document's zone and leaves other fields alone; parse_http_date / http_date are inverse to the second at "
+             "and around DST transitions.",
+        note="nothing is proved: the time conversions live in strptime/strftime/pytz (no contract of ours constrains them) and the URL building is "
+             "string code; the pagination loop is a generator, which the verifier's subset does not cover yet",
+        explanation="bounded run-time contract monitor only (rt.fnmon.dataclient_monitor); exhaustive over paging structures up to the stated size",
+        technique="run-time contract monitor on the real functions against a stub server (bounded stand-in)",
+    ),
     "C15": dict(
         level="other",
         bounded=[dict(module="rt.fnmon", fn="events_monitor", label="session documents, sample matrices and the capacity fit against the property's formulas")],
